@@ -284,6 +284,26 @@ func runC11(c *Ctx) {
 			}
 		}
 	}
+	// many matches: aligned subtrees holding 255 / 256 / 257 / 512 chosen transactions
+	for _, n := range []int{255, 256, 257, 300, 512, 513, 700} {
+		if !c.Thorough() && n != 256 && n != 300 && n != 700 && n != 513 {
+			continue
+		}
+		all := []int{}
+		for i := 0; i < n; i++ {
+			all = append(all, i)
+		}
+		proof(n, all)
+		proof(n, all[:minInt(n, 256)])
+		proof(n, all[n-minInt(n, 256):])
+		if n >= 512 {
+			var sc []int
+			for i := 0; i < n && len(sc) < 256; i += 2 {
+				sc = append(sc, i)
+			}
+			proof(n, sc)
+		}
+	}
 	// larger random blocks
 	for k := 0; k < c.Pick(3, 30); k++ {
 		n := 66 + r.Intn(c.Pick(400, 4000))
